@@ -25,6 +25,7 @@ var checks = map[string]func(tier string) int{
 	"C15": props.CheckC15,
 	"C16": props.CheckC16,
 	"C17": props.CheckC17,
+	"C18": props.CheckC18,
 }
 
 func main() {
